@@ -41,7 +41,9 @@ def one_exec(cfg, order, fail, abort_at):
         src_missing = [MD5[c] for c in cfg.get("src_missing", [])]
         corrupt = [MD5[c] for c in cfg.get("corrupt", [])]
         xw = XWorld(w, trees, dest_kind=cfg["dest"], use_index=cfg["index"], dest_initial=initial,
-                    src_missing=src_missing, verify=bool(corrupt), corrupt=corrupt)
+                    src_missing=src_missing, verify=bool(corrupt), corrupt=corrupt,
+                    hash_name=cfg.get("hash_name", "md5"))
+        bulk = cfg["scenario"] == "bulk"
         xkw = {"verify": True} if corrupt else {}
         try:
             ids = xw.request(trees, closed=cfg["request"] == "closed")
@@ -50,6 +52,8 @@ def one_exec(cfg, order, fail, abort_at):
             seen_mid = []
 
             def on_event(kind, oid, ok):
+                if bulk and not (oid or "").endswith(".dir"):
+                    return  # (closure can only break when a directory object arrives; saves 10^6 file reads)
                 bad, _ = closure_violations(xw.dest.path)
                 if bad and not seen_mid:
                     seen_mid.append((len(plan.events), bad))
@@ -64,7 +68,7 @@ def one_exec(cfg, order, fail, abort_at):
                 viol.append((f"transfer-raises-{type(e).__name__}", repr(e)))
             info["events"] = len(plan.events)
             info["fired"] = plan.fired
-            info["trace"] = [(k, name_of(o) if o else None, r) for k, o, r in plan.events]
+            info["trace"] = [(k, name_of(o) if o else None, r) for k, o, r in plan.events][-40:]
             if seen_mid:
                 n, bad = seen_mid[0]
                 kind = "shared" if any(m in sh for _o, ms in bad for m in ms) else "own"
@@ -285,7 +289,12 @@ def run_case(case):
                if o not in initial and o not in gone]
     sh = shared_files(trees)
     nevents = None
-    for fail in (subsets(uploads) if not cfg.get("corrupt") else [()]):
+    fail_sets = subsets(uploads) if not cfg.get("corrupt") else [()]
+    if cfg["scenario"] == "bulk":
+        # 2^1301 subsets are out of reach: no failure, the first / 1000th / 1001st / last file, the directory
+        fl = sorted(files_of_trees(trees))
+        fail_sets = [(), (fl[0],), (fl[999],), (fl[1000],), (fl[-1],), (TREE_OID[trees[0]],)]
+    for fail in fail_sets:
         viol, info = one_exec(cfg, order, list(fail), None)
         if not fail:
             nevents = info["events"]
@@ -304,7 +313,10 @@ def run_case(case):
             if sig not in sigs:
                 sigs.add(sig)
                 res["viol"].append((sig, detail, {"cfg": cfg, "order": order, "fail": list(fail), "abort_at": None}))
-    for k in range((nevents or 0) if not cfg.get("corrupt") else 0):
+    abort_points = range((nevents or 0) if not cfg.get("corrupt") else 0)
+    if cfg["scenario"] == "bulk":
+        abort_points = [k for k in (0, 1, 999, 1000, 1001, (nevents or 1) - 2, (nevents or 1) - 1) if 0 <= k < (nevents or 0)]
+    for k in abort_points:
         viol, info = one_exec(cfg, order, [], k)
         res["n"] += 1
         res["trans"] += info["events"] + 2
@@ -359,6 +371,17 @@ def configs(tier):
                 for request in ("closed", "expanded"):
                     yield {"scenario": s, "dest": dest, "index": index, "request": request,
                            "initial": "empty", "enoent": True}
+    # stores of another algorithm (ids named md5-dos2unix; the contents are LF-only, so values coincide)
+    for s in ("sharing", "three"):
+        for dest in ("base", "local"):
+            for request in ("closed", "expanded"):
+                yield {"scenario": s, "dest": dest, "index": False, "request": request,
+                       "initial": "empty", "hash_name": "md5-dos2unix"}
+    # one directory with 1300 files: crosses every batching / paging constant
+    for dest in ("base", "local"):
+        for index in (False, True):
+            for request in ("closed", "expanded"):
+                yield {"scenario": "bulk", "dest": dest, "index": index, "request": request, "initial": "empty"}
     # a listed file is missing from the source as well (cannot be delivered at all)
     for s, gone in (("one", ["y"]), ("sharing", ["y"]), ("sharing", ["x"]), ("three", ["z"])):
         for dest in ("base", "local"):
